@@ -456,6 +456,8 @@ class Scenario(object):
                 pos = b.portfolios[pid].pos_handler.positions.get(a)
                 if pos is not None and t < pos.current_dt:
                     errs.add('ValueError')
+                if a not in self.book.q:
+                    continue
                 bid, ask = self.book.q[a]
                 if (bid + ask) / 2.0 < 0:
                     errs.add('ValueError')
@@ -918,6 +920,10 @@ class Scenario(object):
             mp = m.ports.get(d['pid'])
             if mp is None:
                 continue
+            rec_ = self.orders.get(d['order_id'])
+            if rec_ is not None and rec_.get('pid') == d['pid'] and rec_['asset'] != d['asset'] and rec_['qty'] == d['qty']:
+                self.viol(sorted(self.active)[0], 'fill-in-another-asset', 'order %s of %s x %s in %s was booked as a fill in %s'
+                          % (d['order_id'], rec_['qty'], rec_['asset'], d['pid'], d['asset']))
             cost = F(d['price']) * F(d['qty']) + F(d['commission'])
             mp.cash -= cost
             mp.flow += abs(F(d['price']) * F(d['qty'])) + abs(F(d['commission']))
